@@ -275,8 +275,20 @@ func (s *Solver) check1(asserts []*Term, want []*Term) (string, []*big.Int) {
 		fmt.Fprintf(&sb, "(assert %s)\n", a.ref())
 	}
 	sb.WriteString("(check-sat)")
-	s.send(sb.String())
 	wall := time.Duration(s.timeoutMs)*time.Millisecond + 5*time.Second
+	// the write itself can block (pipe full while the solver chews on an earlier definition): bound it too
+	{
+		done := make(chan struct{})
+		txt := sb.String()
+		go func() { s.send(txt); close(done) }()
+		select {
+		case <-done:
+		case <-time.After(wall):
+			s.lastErr = "timeout while sending the query"
+			s.restart()
+			return "unknown", nil
+		}
+	}
 	var res string
 	for {
 		l, err := s.readLine(wall)
